@@ -343,30 +343,35 @@ def events_unit(prop, n_steps, configs, backward=False, with_teval=None, event_v
 
 
 # ============================================================================== C06 dense collection / lookup
-def c06_dense_collection(n_steps, backward=False):
-    """The handler stores exactly one dense segment per accepted step -- whatever the step length
-    (down to the resolution of x, far below its 1e-12 time slack)."""
+def c06_dense_collection(n_steps, backward=False, configs=()):
+    """The handler stores exactly one dense segment per accepted step it was called for -- whatever the step
+    length (down to the resolution of x, far below its 1e-12 time slack), and also for the step in which a
+    terminal event stops the run (the final sample, the event point, lies inside that step)."""
+    configs = list(configs)
 
     def unit(tier="quick", seed=0):
         t0 = time.time()
-        nm = f"c06_dense_collection_{n_steps}steps" + ("_back" if backward else "")
+        nm = f"c06_dense_collection_{n_steps}steps" + ("_back" if backward else "") + ("_" + cfg_name(configs) if configs else "")
         ob = Ob(nm)
-        paths, gen_s = seq(n_steps=n_steps, t_eval_len=None, configs=[], backward=backward, dense=True, min_step=Fraction(1, 10 ** 18))
+        paths, gen_s = seq(n_steps=n_steps, t_eval_len=None, configs=configs, backward=backward, dense=True,
+                           min_step=Fraction(1, 10 ** 18) if not configs else Fraction(4, 10 ** 12))
         ob.paths = len(paths)
         for p in paths:
             if p.outcome.startswith("panic"):
                 ob.failed.append((f"handler panicked: {p.outcome}", p.label(), {}, p.script()))
                 continue
             ds = p.so.f["dense_segs"].items()
-            ob.check(p, len(ds) == p.n_steps, f"dense output: {len(ds)} segments stored for {p.n_steps} accepted steps")
-            for k, sgm in enumerate(ds[: p.n_steps]):
+            n_acc = (len(p.flags) - 1) if configs else p.n_steps      # accepted steps the handler was called for (a terminal event ends the calls)
+            ob.check(p, len(ds) == n_acc, f"dense output: {len(ds)} segments stored for {n_acc} accepted steps")
+            p.n_steps_seen = n_acc
+            for k, sgm in enumerate(ds[: n_acc]):
                 ob.check(p, same(sgm[1], p.xs[k]), "dense output: a stored segment does not start at its step's left end")
             if len(ob.samples) < 2:
                 ob.samples.append({"path": p.label(), "segments": len(ds)})
         return ob.result(t0, {"functions": ["DefaultSolOut::solout dense collection"], "bounds": f"{n_steps} steps of any length above 16 ulp; {len(paths)} paths", "path_generation_s": round(gen_s, 1)},
                          replay_fn=lambda f: replay.handler_replay(f))
 
-    unit.__name__ = f"c06_dense_collection_{n_steps}steps" + ("_back" if backward else "")
+    unit.__name__ = f"c06_dense_collection_{n_steps}steps" + ("_back" if backward else "") + ("_" + cfg_name(configs) if configs else "")
     return unit
 
 
